@@ -43,10 +43,13 @@ func processListFile(destName string, listPath string) {
 	frt.IfOnly(frt.OpNot(ok), (func() {
 		frt.Panicf1("Can't open list file: %s", listPath)
 	}))
-	frt.Pipe(frt.Pipe(frt.Pipe(frt.Pipe(frt.Pipe(frt.Pipe(content, (func(_r0 string) []string { return strings.Split("\n", _r0) })), (func(_r0 []string) []string { return slice.Filter(strings.IsNotEmpty, _r0) })), (func(_r0 []string) []string {
+	dest := filepath.Join(dir, destName)
+	wrote := frt.Pipe(frt.Pipe(frt.Pipe(frt.Pipe(frt.Pipe(frt.Pipe(content, (func(_r0 string) []string { return strings.Split("\n", _r0) })), (func(_r0 []string) []string { return slice.Filter(strings.IsNotEmpty, _r0) })), (func(_r0 []string) []string {
 		return slice.Map((func(_r0 string) string { return convOne(dir, _r0) }), _r0)
-	})), (func(_r0 []string) string { return strings.Concat("\n", _r0) })), (func(_r0 string) string { return strings.AppendHead("## Folang Sample \n\n\n", _r0) })), (func(_r0 string) bool { return sys.WriteFile(filepath.Join(dir, destName), _r0) }))
-
+	})), (func(_r0 []string) string { return strings.Concat("\n", _r0) })), (func(_r0 string) string { return strings.AppendHead("## Folang Sample \n\n\n", _r0) })), (func(_r0 string) bool { return sys.WriteFile(dest, _r0) }))
+	frt.IfOnly(frt.OpNot(wrote), (func() {
+		frt.Panicf1("Can't write file: %s", dest)
+	}))
 }
 
 func main() {
